@@ -46,3 +46,49 @@ def broadcast_batcher_compat(
     args = [_handle_scalar_broadcasting(ndim, x, d) for x, d in zip(args, dims)]
     out = prim.bind(*args, **params)
     return (out, (0,) * len(out)) if prim.multiple_results else (out, 0)
+
+
+def matmul_batcher_compat(
+    bind_matmul: Any, args: Sequence[Any], dims: Sequence[Any], **params: Any
+) -> Any:
+    """Batch rule for matmul-like contractions (``a @ b`` semantics).
+
+    The batch dimensions move to the front.  A per-example 1-D operand becomes an explicit
+    row / column so that its batch dimension is not mistaken for a matrix dimension, and
+    per-example leading dimensions are right-aligned as matmul broadcasting expects.
+    """
+    import jax.numpy as jnp
+
+    a, b = args
+    a_bd, b_bd = dims
+    a_mapped = a_bd is not NOT_MAPPED
+    b_mapped = b_bd is not NOT_MAPPED
+    if a_mapped:
+        a = jnp.moveaxis(a, a_bd, 0)
+    if b_mapped:
+        b = jnp.moveaxis(b, b_bd, 0)
+    a_rank = np.ndim(a) - (1 if a_mapped else 0)
+    b_rank = np.ndim(b) - (1 if b_mapped else 0)
+    if a_rank == 0 or b_rank == 0:
+        raise NotImplementedError("matmul batching requires operands of rank >= 1")
+    squeeze: list[int] = []
+    if a_rank == 1:
+        a = jnp.expand_dims(a, -2)
+        squeeze.append(-2)
+        a_rank = 2
+    if b_rank == 1:
+        b = jnp.expand_dims(b, -1)
+        squeeze.append(-1)
+        b_rank = 2
+    # right-align the per-example leading dimensions behind the batch dimension
+    lead = max(a_rank, b_rank)
+    if a_mapped and a_rank < lead:
+        a = jnp.reshape(a, a.shape[:1] + (1,) * (lead - a_rank) + a.shape[1:])
+    if b_mapped and b_rank < lead:
+        b = jnp.reshape(b, b.shape[:1] + (1,) * (lead - b_rank) + b.shape[1:])
+    out = bind_matmul(a, b, **params)
+    if squeeze:
+        # squeeze the later axis first so the earlier index stays valid
+        for ax in sorted(squeeze, reverse=True):
+            out = jnp.squeeze(out, axis=ax)
+    return out, 0
